@@ -267,7 +267,10 @@ pub fn ctx_dump(ctx: &crate::Context) -> Result<Vec<(String, Option<crate::Value
                 k.clone(),
                 match v {
                     ContextValue::Variable(v) => Some(v.clone()),
-                    ContextValue::Function(_) => None,
+                    // any other kind of entry (including kinds a later version of the crate may add) is
+                    // reported as "not a variable"
+                    #[allow(unreachable_patterns)]
+                    _ => None,
                 },
             )
         })
